@@ -27,6 +27,7 @@ class Interp(ExprMixin, StmtMixin, CallMixin, BuiltinsMixin):
         self.current_exc = []
         self.symbolic_objs = set()
         self.untyped_empty = set()
+        self.local_cells = set()
         self.inlined = set()
         self.called = set()
         self.call_counts = {}
